@@ -121,6 +121,9 @@ def run(rep, wd, tier, seed):
     from . import isocheck
     tjobs = [(seed, [(tid + 1000 * k + i, 'multi', 0, 0) for i in range(40 if tier == 'thorough' else 24)]) for k in range(8)]
     batches += isocheck.mark_threaded(isocheck.threaded('harness.c03', '_drive', tjobs, procs=2))
+    # two writers / readers alive at the same time and used alternately, record by record
+    ljobs = [(seed, [(tid + 20000 + 1000 * k + i, 'multi', 0, 0) for i in range(12)]) for k in range(8)]
+    batches += isocheck.lockstep('harness.c03', '_drive', ljobs, procs=4)
     rep.sample({'trace': batches[0][0]['_desc'], 'events': [e['op'] + ':' + e['out'] for e in batches[0][0]['events']]})
     rep.sample({'trace': batches[-1][-1]['_desc']})
     vbsc.validate(rep, wd, batches, 'vbs')
